@@ -82,3 +82,66 @@ package goja
 //@   ensures result == nil ==> vm.stash == tf.stash && vm.privEnv == tf.privEnv && int(tf.callStackLen) >= len(vm.callStack) && len(vm.iterStack) == int(tf.iterLen) && len(vm.refStack) == int(tf.refLen) [registers-of-catching-frame]
 //@   ensures result == nil ==> vm.sp == int(tf.sp) || vm.sp == int(tf.sp)+1 && same(vm.stack[vm.sp-1], ex.val) [stack-height-restored]
 //@   ensures_panic same(panicValue, arg) && specThrownKind(arg) != 1 [rethrows-same-value]
+
+// ---- interrupts (C15, sequential part): the run loop polls the interrupt flag with an atomic load
+// immediately before every instruction it executes - no instruction runs on a stale poll - and an
+// interrupt is delivered as an InterruptedError carrying the value written under the lock.
+//@ func (*vm).run
+//@   props C15
+//@   requires vm != nil && vm.prg != nil
+//@   loop 1 vars count int
+//@   loop 1 invariant count >= 0 [counter]
+//@   site exec#1 vars interrupted bool
+//@   site exec#1 requires lastload(&vm.interrupted) && !interrupted [polled-just-before-every-instruction]
+//@   ensures_panic specIsInterruptedError(panicValue) [interrupt-surfaces-as-InterruptedError]
+
+// Access discipline that makes Interrupt() from another goroutine race-free: the flag is only
+// touched through sync/atomic, the payload only with the lock held (one obligation per access).
+//@ atomiconly vm.interrupted
+//@ guarded vm.interruptVal vm.interruptLock
+
+//@ func (*vm).Interrupt
+//@   props C15
+//@   requires vm != nil
+//@   ensures vm.interrupted == 1 && same(vm.interruptVal, v) [flag-and-payload-set]
+//@   assigns vm.interrupted, vm.interruptVal
+
+//@ func (*vm).ClearInterrupt
+//@   props C15
+//@   requires vm != nil
+//@   ensures vm.interrupted == 0 [flag-cleared]
+//@   assigns vm.interrupted
+
+// ---- leaving the runtime (C03, C10, C15)
+
+//@ func (*Runtime).ClearInterrupt
+//@   props C15 C03
+//@   requires r != nil && r.vm != nil
+//@   ensures r.vm.interrupted == 0 [flag-cleared]
+//@   assigns r.vm.interrupted
+
+//@ func (*Runtime).leaveAbrupt
+//@   props C03 C10 C15
+//@   requires r != nil && r.vm != nil
+//@   ensures len(r.jobQueue) == 0 && r.vm.interrupted == 0 [queue-dropped-and-interrupt-cleared]
+
+//@ func (*Runtime).leave
+//@   props C03 C10
+//@   requires r != nil && r.vm != nil
+//@   loop 1 vars jobs []func()
+//@   loop 1 invariant true [outer]
+//@   loop 2 vars rangeindex int
+//@   loop 2 invariant true [inner]
+//@   ensures len(r.jobQueue) == 0 && len(r.vm.stack) == 0 [queue-drained-stack-released]
+
+// ---- call contexts (C03)
+//@ func (*vm).pushCtx
+//@   props C03
+//@   requires vm != nil
+//@   ensures len(vm.callStack) == old(len(vm.callStack))+1 [one-more]
+//@   ensures_panic specIsStackOverflow(panicValue) && len(vm.callStack) == old(len(vm.callStack)) [overflow-pushes-nothing]
+
+//@ func (*vm).popCtx
+//@   props C03
+//@   requires vm != nil && len(vm.callStack) > 0
+//@   ensures len(vm.callStack) == old(len(vm.callStack))-1 [one-less]
